@@ -26,9 +26,9 @@ def main():
     for o in allobls:
         ok = (o.status == "discharged") if o.expect == "unsat" else (o.status == "refuted")
         print(("  ok  " if ok else "  BAD ") + f"{o.status:10s} {o.solver:10s} {o.seconds:6.2f}s {o.name}")
-        if not ok and o.values:
+        if not ok and o.values and os.environ.get("PYVC_TRACE"):
             print("       model:", {k: v for k, v in list(o.values.items())[:12]})
-        if not ok:
+        if not ok and os.environ.get("PYVC_TRACE"):
             print("       trace:", " ".join(o.info.get("trace", [])[-14:]))
         if not ok and os.environ.get("PYVC_DUMP"):
             open(os.environ["PYVC_DUMP"] + "/" + o.name.replace("/", "_") + ".smt2", "w").write(o.smt2)
